@@ -45,6 +45,18 @@ func Relieve() {
 	}
 }
 
+// memBase is the live heap the harness itself holds (work lists, caches); pressure is measured above it.
+var memBase atomic.Uint64
+
+// Rebase measures the live heap after a collection and takes it as the harness's own share. Called
+// by the runner between units, when no query is running, after the work lists have been built.
+func Rebase() {
+	runtime.GC()
+	sample := []metrics.Sample{{Name: "/memory/classes/heap/objects:bytes"}}
+	metrics.Read(sample)
+	memBase.Store(sample[0].Value.Uint64())
+}
+
 func StartMemoryMonitor(limitBytes uint64) {
 	memLimit = limitBytes
 	if !monitorOn.CompareAndSwap(false, true) {
@@ -56,6 +68,11 @@ func StartMemoryMonitor(limitBytes uint64) {
 			time.Sleep(5 * time.Millisecond)
 			metrics.Read(sample)
 			heap := sample[0].Value.Uint64()
+			if b := memBase.Load(); heap > b {
+				heap -= b
+			} else {
+				heap = 0
+			}
 			if heap > 24*limitBytes {
 				// a single native instruction is blowing the heap up between polls: nothing cooperative
 				// can stop it, and the sandbox has no memory limit of its own
